@@ -15,9 +15,21 @@ Record case := mkCase { k_cfg : cfg; k_ext : ext_table; k_hist : list (Z * xop *
 Definition same_set (a b : list string) : bool :=
   (length a =? length b)%nat && forallb (fun k => mem k b) a && forallb (fun k => mem k a) b.
 
+(* A rejection whose error text / HTTP body the harness does not recognise is recorded as RErr "?" (any reason) or,
+   for an HTTP 400 answer, RErr "?400" (any reason but not-found, which is a 404): the WORDING of an error is not
+   behaviour. Such an observation is compatible with any model rejection of that class, never with a success. *)
+Definition out_compat (model impl : out) : bool :=
+  match impl, model with
+  | RErr c, RErr m =>
+      if String.eqb c "?" then true
+      else if String.eqb c "?400" then negb (String.eqb m "notfound")
+      else String.eqb c m
+  | _, _ => beq model impl
+  end.
+
 Definition xout_eqb (model impl : xout) : bool :=
   match model, impl with
-  | XOut a, XOut b => beq a b
+  | XOut a, XOut b => out_compat a b
   | XDumped s1 m1 v1 n1, XDumped s2 m2 v2 n2 => same_set s1 s2 && same_set m1 m2 && beq v1 v2 && (n1 =? n2)
   | XMarshalled r1, XMarshalled r2 =>
       (length r1 =? length r2)%nat && forallb (fun w => bool_decide (w ∈ r2)) r1 && forallb (fun w => bool_decide (w ∈ r1)) r2
